@@ -91,7 +91,7 @@ class Ctx:
             cmd += extra
         cmd += [module + ".tla"]
         e = dict(os.environ)
-        jto = "-Xss64m"
+        jto = "-Xss64m -Djava.io.tmpdir=%s" % md      # TLC leaves a tlc-<n> directory in java.io.tmpdir on every run
         if heap:
             jto += " -Xmx%s" % heap
         e["JAVA_TOOL_OPTIONS"] = (e.get("JAVA_TOOL_OPTIONS", "") + " " + jto).strip()
